@@ -88,6 +88,21 @@ CHECKS = {
     note='scikit-learn DBSCAN is taken by contract; the elliptical variants regroup/regroup_vectorized are outside; >4 sources only in the replay oracle (real DBSCAN, 1-9 sources near poles and RA wrap, negative fluxes).',
     technique='symbolic execution of the real Python source on z3 terms with a contract stub whose comparisons fork; relational runs for permutations; sympy normalisation then z3 decides',
     design='4/C19'),
+ 'C01': dict(
+    text='Partial: the deterministic halves around the optimiser. K-forward: the real ntwodgaussian_lmfit/elliptical_gaussian on symbolic parameters and pixels equals the sum of rotated Gaussians in sigma units with theta CCW from the first axis in degrees, and the residual function do_lmfit hands to lmfit (captured) is identically zero at the injected parameters, also after whitening with a symbolic B. K-backward: the real result_to_components on a symbolic fitted model with a conformal first-order WCS: sky position of the 1-based FITS pixel (col=yo+ymin+1,row=xo+xmin+1), axes = sigma*2sqrt(2ln2)*scale*3600, PA = bearing East of North, peak=amp, int_flux=peak*a*b/(psf_a*psf_b); fix_shape/pa_limit cut here and decided in C03. The Jacobian is C04.',
+    note='the closed loop itself (optimiser convergence, island detection, BANE, noise) is NOT decided: it is only exercised by the replay oracle on three random noise-free injections (SIN/TAN/ZEA/ARC/STG) against the statement\'s tolerances; projection distortion outside; CC2FHWM/FWHM2CC symbolic with value checked as constants.',
+    technique='symbolic execution of the real Python source on z3 terms (units-aware trig, exp atoms, radicals), conformal-WCS stub; sympy normalisation then z3 decides; replay = real blind source finding on injected Gaussians',
+    design='4/C01'),
+ 'C03': dict(
+    text='Partial: per-row invariants and numbering. K-numbering: the istart/group_size/enumerate expressions of the priorized batching extracted from the AST: distinct (group, position) pairs get distinct island numbers for any number of groups (LIA). K-normalise: real fix_shape/pa_limit and the RA wrap: a>=b>0, -90<pa<=90, same ellipse mod 180, 0<=ra<360. K-errors: the real fitting.errors with standard errors ranging over what covar_errors emits (positive, NaN, negative) and an arbitrary WCS: every uncertainty is >=0 and finite or exactly -1, and -1 for parameters that were not free. K-rows: the real result_to_components on two components: numbering 0..n-1, flags = island|model flags within the seven bits, int_flux formula. K-flags: seven single-bit constants, no other flag referenced.',
+    note='whole-catalogue reproducibility, island-row/pixel agreement and completion on every image need complete runs and are NOT decided; the replay oracle runs real blind (twice) and priorized (25 islands, two groups) finding on a noise-free field and checks every row invariant of the statement.',
+    technique='symbolic execution of the real Python source and AST-extracted expressions on z3 terms (LIA / nonlinear reals), z3 decides; models replayed through real blind + priorized source finding',
+    design='4/C03'),
+ 'C05': dict(
+    text='Partial: everything around the fit. K-refit: the real _refit_islands runs to the image cut-out on a symbolic source (1-based pixel position anywhere, FWHM 2-5 px, symbolic integer stage): amp free, position free iff stage>=2, shape free iff stage>=3; bounds contain the values; cut-out indices in range; position in the cut-out + cut-out origin == true pixel (the model is registered with the slice the fit sees); a source is skipped only when off the image. K-copyback: the copy-back loop sliced from the AST: uuid, PRIORIZED, input uncertainties of parameters the stage did not free, paired by index. K-resize-nopsf: the real cluster.resize on sources with undefined psf columns: ratio None/1 raise nothing and change nothing.',
+    note='the fit (MINPACK) and the post-fit equalities (0.1 %, 0.01 pixel) are NOT decided; the replay oracle runs real priorized fitting (stages 1-3, with/without psf columns, ratio None/1) on the noise-free model image of the catalogue.',
+    technique='symbolic execution of the real Python source up to a cut point (record Parameters, symbolic WCS answers), AST slice of the copy-back loop; z3 decides; models replayed through real priorized fitting',
+    design='4/C05'),
 }
 NA = {}
 ALL = ['C%02d' % i for i in range(1, 21)]
